@@ -186,6 +186,10 @@ func (b *BloomSearchEngine) IngestRows(ctx context.Context, rows []map[string]an
 	case b.ingestChan <- req:
 		verifPoint("ingest.sent", int64(len(rows)), 0, req)
 		return nil
+	case <-b.stopping:
+		// Stop has begun while this call was waiting for room in the ingest
+		// buffer: the batch was not accepted.
+		return ErrEngineStopped
 	case <-ctx.Done():
 		verifPoint("ingest.ctxerr", int64(len(rows)), 0, req)
 		return ctx.Err()
@@ -214,6 +218,9 @@ func (b *BloomSearchEngine) Flush(ctx context.Context) error {
 		b.stateMu.RUnlock()
 		// Wait for flush to complete (once committed, let it finish)
 		return <-doneChan
+	case <-b.stopping:
+		b.stateMu.RUnlock()
+		return ErrEngineStopped
 	case <-ctx.Done():
 		verifPoint("ingest.ctxerr", 0, 1, req)
 		b.stateMu.RUnlock()
